@@ -208,7 +208,7 @@ Nodes(s) == CASE s.k \in {"if", "case"} -> 1 + NodesSeq(s.arms[1].body) + NodesS
               [] s.k \in {"while", "repeat", "loop", "block"} -> 1 + NodesSeq(s.body)
               [] OTHER -> 1
 \* the sets of tails are computed once (TLC re-evaluates recursive definitions at every use)
-XTails == [n \in 0..XSize |-> UNION {XSeq(1, j, Ctx0) : j \in 0..n}]
+XTails == [n \in 0..(XSize - 1) |-> UNION {XSeq(1, j, Ctx0) : j \in 0..n}]
 ASSUME TLCSet(7, XTails)
 
 XProg(ss) == [params |-> Params("inout", "out"), args |-> <<I(0), NULL>>,
